@@ -178,6 +178,12 @@ struct Listed {
 
 fn unsupported() -> Vec<(String, &'static str)> {
     let mut v: Vec<(String, &'static str)> = vec![];
+    // character references whose number does not fit 32 / 64 bits, in every place a reference may stand
+    for n in ["4294967296", "x100000000", "18446744073709551616", "x10000000000000000", "99999999999999999999999999999999", "x1FFFFFFFFFFFFFFFFFFFFFFFFFFFFF", "0000000000000000000000000000000065", "x-41", "-65", "+65", "x+41"] {
+        for t in ["<r>&#{};</r>", "<r a='&#{};'/>", "<!DOCTYPE r [<!ENTITY e '&#{};'>]><r>&e;</r>", "<!DOCTYPE r [<!ENTITY e '&#{};'>]><r/>", "<!DOCTYPE r [<!ATTLIST r a CDATA '&#{};'>]><r/>"] {
+            v.push((t.replace("{}", n), "character reference beyond 32 bits or with a sign"));
+        }
+    }
     let mut add = |s: &str, why: &'static str| v.push((s.to_string(), why));
     add("<!DOCTYPE r [<!ENTITY % p \"x\">]><r/>", "PE declaration");
     add("<!DOCTYPE r [<!ENTITY % p SYSTEM 'p.ent'>]><r/>", "external PE declaration");
